@@ -243,6 +243,7 @@ func genC18(r *rng, n int, emit func(string)) {
 	emit(rreq("k", "GET", "/", "", "-"))
 	emit(rreq("k", "GET", "/ocra/suites", "", "-"))
 	emit(rreq("f", "GET", "/docs", "", "-"))
+	emit(rreq("f", "GET", "/docs/index.html", "", "-")) // the documentation pages of the swagger handler
 	for _, a := range []string{"", "algorithm=SHA1", "algorithm=SHA256", "algorithm=SHA512", "algorithm=sha512", "algorithm=MD5"} {
 		emit(rreq("k", "GET", "/otp/secret", a, "-"))
 	}
@@ -378,6 +379,18 @@ func genC19(r *rng, n int, emit func(string)) {
 		}
 		probe()
 	}
+	// OCRA input fields that are not hexadecimal (each field in turn, odd length, a non-hex digit), on both endpoints
+	for _, fld := range []string{"counter_hex", "challenge_hex", "password_hex", "session_info_hex", "timestamp_hex"} {
+		for _, bad := range []string{"3", "zz", "31 31", "0x31"} {
+			in := fS(fld, bad)
+			if fld != "challenge_hex" {
+				in = join(fS("challenge_hex", "3131313131313131"), in)
+			}
+			emit(rreq("k", "POST", "/ocra/generate", "", obj(fS("secret", "GEZDGNBVGY3TQOJQGEZDGNBVGY3TQOJQ"), fS("raw_suite", "OCRA-1:HOTP-SHA1-6:QN08"), fO("input", in))))
+			emit(rreq("k", "POST", "/ocra/validate", "", obj(fS("secret", "GEZDGNBVGY3TQOJQGEZDGNBVGY3TQOJQ"), fS("code", "243178"), fS("raw_suite", "OCRA-1:HOTP-SHA1-6:QN08"), fO("input", in))))
+		}
+	}
+	probe()
 	// keys that belong to another endpoint's request (encoding/json ignores a key the struct has no field for, whatever
 	// its value is), with one value of every JSON kind
 	allFields := []string{"secret", "timestamp", "counter", "code", "digits", "period", "skew", "algorithm", "raw_suite", "suite", "input", "type", "issuer", "account_name", "details", "valid"}
